@@ -174,7 +174,25 @@ func runC11(c *Ctx) {
 	if pcu == nil {
 		R.Fail("C11.R2", "anchor:S-reply", "-", "some function of package wire answers an SSLRequest with 'S'", "no Write(sslSupported) found")
 	}
-	sun := c.mustMethod("C11.R3", "wire", "Server", "sslUnsupported")
+	// the function that answers 'N' (sslUnsupported, or the upgrade step itself when the two are merged)
+	var sun *ssa.Function
+	var nWriteSite ssa.CallInstruction
+	for _, fn := range c.P.ScopeFuncs() {
+		if !c.P.InPkg(fn, "wire") {
+			continue
+		}
+		for _, ci := range core.Calls(fn) {
+			cc := ci.Common()
+			if cc.IsInvoke() && cc.Method.Name() == "Write" && len(cc.Args) == 1 {
+				if u, ok := core.Strip(cc.Args[0]).(*ssa.UnOp); ok && u.X == ssa.Value(gn) {
+					sun, nWriteSite = fn, ci
+				}
+			}
+		}
+	}
+	if sun == nil {
+		R.Fail("C11.R3", "anchor:N-reply", "-", "some function of package wire answers an SSLRequest with 'N'", "no Write(sslUnsupported) found")
+	}
 	serve := c.mustMethod("C11.R2", "wire", "Server", "serve")
 	hs := c.mustMethod("C11.R2", "wire", "Server", "Handshake")
 	if pcu == nil || sun == nil || serve == nil || hs == nil {
@@ -277,7 +295,26 @@ func runC11(c *Ctx) {
 	} else {
 		connP2, readerP2 = connP, readerP
 	}
-	R.Check(len(nCalls) == 1, "C11.R1", "potentialConnUpgrade:N-path", c.atFn(guardFn), "without certificates the request is answered by the 'N' path", "one call of sslUnsupported", sprintf("%d calls of sslUnsupported", len(nCalls)))
+	if sun == guardFn {
+		// merged form: the 'N' write is in the same function; the two replies exclude each other and 'N' is not
+		// sent on the certificate edges
+		excl := true
+		for b := range reachableAvoiding(sWrite.Block(), func(*ssa.BasicBlock) bool { return false }) {
+			if b == nWriteSite.Block() {
+				excl = false
+			}
+		}
+		for b := range reachableAvoiding(nWriteSite.Block(), func(*ssa.BasicBlock) bool { return false }) {
+			if b == sWrite.Block() {
+				excl = false
+			}
+		}
+		onCert := anyDominates(cfgNonNil, nWriteSite.Block()) && anyDominates(certsNonEmpty, nWriteSite.Block())
+		R.Check(excl && !onCert, "C11.R1", "potentialConnUpgrade:N-path", c.at(nWriteSite), "without certificates the request is answered by the 'N' path, and only then", "the 'S' and 'N' writes exclude each other and 'N' is not on the certificate edges", sprintf("'S' and 'N' exclude each other: %v; 'N' on the certificates-present edges: %v", excl, onCert))
+		R.Check(nWriteSite.Common().Value == ssa.Value(connP), "C11.R3", "potentialConnUpgrade:N-same-conn-and-reader", c.at(nWriteSite), "the 'N' path continues on the same connection with the same reader", "'N' is written on the function's own connection parameter", "'N' is not written on the connection the request came from")
+	} else {
+		R.Check(len(nCalls) == 1, "C11.R1", "potentialConnUpgrade:N-path", c.atFn(guardFn), "without certificates the request is answered by the 'N' path", "one call of sslUnsupported", sprintf("%d calls of sslUnsupported", len(nCalls)))
+	}
 	for _, ci := range nCalls {
 		a := ci.Common().Args
 		R.Check(a[1] == ssa.Value(connP2) && a[2] == ssa.Value(readerP2), "C11.R3", "potentialConnUpgrade:N-same-conn-and-reader", c.at(ci), "the 'N' path continues on the same connection with the same reader", "sslUnsupported(conn, reader) with the function's own parameters", "the 'N' path does not receive the original connection and reader")
@@ -484,11 +521,20 @@ func runC11(c *Ctx) {
 			nReader = p
 		}
 	}
+	inN := func(in ssa.Instruction) bool { // the 'N' region of the function
+		return sun != pcu || core.InstrDominates(nWriteSite, in)
+	}
 	for _, r := range returns(sun) {
+		if !inN(r) {
+			continue
+		}
 		R.Check(r.Results[0] == ssa.Value(nConn) && r.Results[1] == ssa.Value(nReader), "C11.R3", "sslUnsupported:same-conn-and-reader", c.at(r), "after 'N' the same connection and reader continue", "returns its conn and reader parameters", "sslUnsupported returns a different connection or reader (bytes already buffered behind the SSLRequest would be lost or re-framed)")
 	}
 	rv := c.P.Method("wire", "Server", "readVersion")
 	for _, ci := range callsIn(sun, calleeIs(rv)) {
+		if !inN(ci) {
+			continue
+		}
 		R.Check(ci.Common().Args[1] == ssa.Value(nReader), "C11.R3", "sslUnsupported:rereads-on-same-reader", c.at(ci), "the fresh start-up packet is read through the same reader", "readVersion(reader parameter)", "the version is re-read through a different reader")
 		// cancel refused
 		ver := resultOf(ci.(*ssa.Call), 0)
@@ -508,6 +554,9 @@ func runC11(c *Ctx) {
 	for _, ci := range core.Calls(sun) {
 		cc := ci.Common()
 		if cc.IsInvoke() && cc.Method.Name() == "Write" {
+			if sun == pcu && ci != nWriteSite {
+				continue // the 'S' write of the merged function (R1 / R2)
+			}
 			nWrites++
 			u, ok := core.Strip(cc.Args[0]).(*ssa.UnOp)
 			R.Check(ok && u.X == ssa.Value(gn) && cc.Value == ssa.Value(nConn), "C11.R3", "sslUnsupported:N-reply", c.at(ci), "the negative reply is the byte 'N' on the same connection", "conn.Write(sslUnsupported)", "the write in sslUnsupported is not Write(sslUnsupported) on the conn parameter")
